@@ -6,6 +6,7 @@
 #include "seams_stream.hpp"
 
 #include <ctpg/ctpg.hpp>
+#include <iterator>
 #include <streambuf>
 #include <ostream>
 #include <string>
@@ -33,6 +34,23 @@ public:
         bool operator!=(const iterator& o) const { return pos != o.pos; }
         iterator& operator+=(size_t n) { simrt::adv(pos, pos + int64_t(n)); pos += int64_t(n); return *this; }
         iterator operator+(size_t n) const { iterator i(*this); simrt::adv(pos, pos + int64_t(n)); i.pos += int64_t(n); return i; }
+        // the rest of a random-access iterator: a library change that starts using these must still compile against
+        // a user buffer (every movement stays an event and is range-checked)
+        using iterator_category = std::random_access_iterator_tag;
+        using value_type = char;
+        using difference_type = std::ptrdiff_t;
+        using pointer = const char*;
+        using reference = char;
+        iterator& operator--() { simrt::adv(pos, pos - 1); --pos; return *this; }
+        iterator operator--(int) { iterator i(*this); simrt::adv(pos, pos - 1); --pos; return i; }
+        iterator& operator-=(size_t n) { simrt::adv(pos, pos - int64_t(n)); pos -= int64_t(n); return *this; }
+        iterator operator-(size_t n) const { iterator i(*this); simrt::adv(pos, pos - int64_t(n)); i.pos -= int64_t(n); return i; }
+        difference_type operator-(const iterator& o) const { return difference_type(pos - o.pos); }
+        char operator[](size_t n) const { return simrt::rd(pos + int64_t(n)); }
+        bool operator<(const iterator& o) const { return pos < o.pos; }
+        bool operator>(const iterator& o) const { return pos > o.pos; }
+        bool operator<=(const iterator& o) const { return pos <= o.pos; }
+        bool operator>=(const iterator& o) const { return pos >= o.pos; }
     };
 
     iterator begin() const { return iterator{ 0 }; }
